@@ -307,7 +307,7 @@ def run_replay(check_id, path, repo, as_json):
         # re-run the recorded state through the check's own driver
         task = dict(rec["case"]["task"], shard=0, nshards=1, backend=be)
         ck = rec["case"]["clock"]
-        task["regime"] = ["near", -ck, -ck] if ck < 0 else (
+        task["regime"] = ["tiny", -ck - 100, -ck - 100] if ck <= -100 else ["near", -ck, -ck] if ck < 0 else (
             ["far", ck - 1000, ck - 1000] if ck >= 1000 else ["dense", ck, ck])
         from . import pairs as _pairs, lattice as _lat
         r = Result()
